@@ -137,7 +137,7 @@ fn full_name(inst: &str, service: &str) -> String {
     format!("{}.{}", inst, service)
 }
 
-fn history(ctx: &mut Ctx, idx: u64) {
+pub fn history(ctx: &mut Ctx, idx: u64) {
     let mut r = ctx.rng("history", idx);
     let services = ["_svc._tcp.local", "_http._tcp.local", "_x.local", "_svc._udp.example.com"];
     let service_s = *r.pick(&services);
@@ -665,6 +665,11 @@ fn live(ctx: &mut Ctx) {
 }
 
 pub fn run(ctx: &mut Ctx) {
+    if let Some(tape) = ctx.tape_case() {
+        // replay of a case found by the coverage-guided `model` target: the tape drives every generator decision
+        super::model_case("C15", ctx, &tape);
+        return;
+    }
     if ctx.shard == 0 && !ctx.slow_tool && !cfg!(miri) && ctx.family_active("live") && std::env::var_os("VERIF_C15_NO_LIVE").is_none() {
         live(ctx);
     }
